@@ -77,6 +77,19 @@ register('C15',
          'Coq proof (list reasoning on top of the C08 position lemmas) + vm_compute correspondence against version.changeset and schema.update_property_mod_flags',
          'DESIGN.md §7 C15')
 
+register('C02',
+         'Coq theorems over the Layer-B machine for every event trace (any split into flushes and commits, relationship-only and '
+         'non-versioned-only transactions, manual record creation, every plugin set): no version / association-version / changes '
+         'row ever refers to a missing transaction record (reachable-state invariant, incl. rollbacks); every row a flush adds '
+         'carries the one current id; the record, once created, stays current until the transaction ends; a flush creates a record '
+         'iff some versioned object is new/deleted/modified, exactly one, larger than all earlier ids. The machine mirrors '
+         'unit_of_work.py/manager.py/operation.py branch for branch and is replayed on recorded listener-level traces of the real '
+         'code and compared with the real tables after every flush/commit/rollback on every run.',
+         COMMON_NOTE + 'The SQLAlchemy session is environment: it enters as the recorded event trace (well-formedness monitored). '
+         'Plugin-supplied transaction attributes (Flask, TransactionMeta) are opaque to the model and not compared.',
+         'Coq proof (inductive invariant over event traces) + vm_compute replay of recorded traces against the real tables',
+         'DESIGN.md §7 C02')
+
 ALL = ['C%02d' % i for i in range(1, 21)]
 
 
